@@ -163,10 +163,10 @@ func TestC14Xid(t *testing.T) {
 // ---------------------------------------------------------------------------
 
 type c14out struct {
-	Bytes []byte
-	Dump  string
+	Bytes  []byte
+	Dump   string
 	Bytes2 []byte
-	Err   string
+	Err    string
 }
 
 var c14Uniq atomic.Uint64
